@@ -259,6 +259,12 @@ Fixpoint normalise_numbers (j : json) : option json :=
 
 (* ---- jsoncanonicalizer.Transform on valid JSON text ---- *)
 
+(* Transform refuses documents nested deeper than this many levels (fix c362f28; the constant is
+   regenerated from the source and proved equal in Agree/AgreeTables.v).  The model has no such
+   limit: its theorems speak about documents within it, and what the implementation does beyond
+   it - a prompt error - is checked by the C19 stream. *)
+Definition max_nesting_depth : N := 10000%N.
+
 Inductive tres := TOk (out : string) | TErr | TOutOfDomain.
 
 Definition transform (s : string) : tres :=
